@@ -182,6 +182,45 @@ theorem det_fromTrig {a : Trig K} (h : a.Unit) : (fromTrig a).det = 1 := by
     simp only [fromTrig, M3.det, det3, V3.cross, V3.dot]; ring
   rw [e, hp, hy, hr]; ring
 
+/-! ### displacement vectors: directions rotate without the offset -/
+
+theorem placeDir_comp (P₁ P₂ : Placement K) (v : V3 K) :
+    placeDir P₂ (placeDir P₁ v) = placeDir (P₁.comp P₂) v := by
+  simp only [placeDir, Placement.comp]; exact rot_mul _ _ v
+
+theorem placeDir_id (v : V3 K) : placeDir Placement.id v = v := rot_one v
+
+/-- A direction is a difference of positions: the origin cancels. -/
+theorem place_sub (P : Placement K) (a b : V3 K) :
+    (place P a).sub (place P b) = placeDir P (a.sub b) := by
+  simp only [place, placeDir, rot, V3.add, V3.sub, V3.mk.injEq]
+  refine ⟨?_, ?_, ?_⟩ <;> ring
+
+theorem DispVert.localise_comp (P₁ P₂ : Placement K) (d : DispVert K) :
+    DispVert.localise P₂ (DispVert.localise P₁ d) = DispVert.localise (P₁.comp P₂) d := by
+  simp only [DispVert.localise, placeDir_comp]
+
+theorem DispVert.localise_id (d : DispVert K) : DispVert.localise Placement.id d = d := by
+  cases d; simp only [DispVert.localise, placeDir_id]
+
+theorem Disp.localise_comp (P₁ P₂ : Placement K) (d : Disp K) :
+    Disp.localise P₂ (Disp.localise P₁ d) = Disp.localise (P₁.comp P₂) d := by
+  simp only [Disp.localise, place_comp, List.map_map, Disp.mk.injEq, true_and]
+  apply List.map_congr_left
+  intro v _
+  exact DispVert.localise_comp P₁ P₂ v
+
+theorem Disp.localise_id (d : Disp K) : Disp.localise Placement.id d = d := by
+  cases d with | mk pos verts =>
+  have : DispVert.localise (Placement.id : Placement K) = id := funext DispVert.localise_id
+  simp only [Disp.localise, place_id, this, List.map_id]
+
+/-- The world position of a displaced vertex moves with the geometry. -/
+theorem dispPoint_place (P : Placement K) (d : DispVert K) (elev : K) (base : V3 K) :
+    (DispVert.localise P d).point elev (place P base) = place P (d.point elev base) := by
+  simp only [DispVert.point, DispVert.localise, placeDir, place, rot, V3.add, V3.smul, V3.mk.injEq]
+  refine ⟨?_, ?_, ?_⟩ <;> ring
+
 end Ring
 
 section Field
@@ -214,12 +253,21 @@ theorem localiseAxis_comp {P₁ P₂ : Placement K} (h : Orth P₂.R) (ax : UVAx
   · linear_combination (ax.scale)⁻¹ * hd
 
 theorem Side.localise_id (s : Side K) : Side.localise Placement.id s = s := by
-  cases s
-  simp only [Side.localise, place_id, localiseAxis_id]
+  cases s with | mk p0 p1 p2 u v d =>
+  have hd : Option.map (Disp.localise (Placement.id : Placement K)) d = d := by
+    cases d with
+    | none => rfl
+    | some d => simp only [Option.map_some, Disp.localise_id]
+  simp only [Side.localise, place_id, localiseAxis_id, hd]
 
 theorem Side.localise_comp {P₁ P₂ : Placement K} (h : Orth P₂.R) (s : Side K) :
     Side.localise P₂ (Side.localise P₁ s) = Side.localise (P₁.comp P₂) s := by
-  simp only [Side.localise, place_comp, localiseAxis_comp h]
+  have hd : Option.map (Disp.localise P₂) (Option.map (Disp.localise P₁) s.disp)
+      = Option.map (Disp.localise (P₁.comp P₂)) s.disp := by
+    cases s.disp with
+    | none => rfl
+    | some d => simp only [Option.map_some, Disp.localise_comp]
+  simp only [Side.localise, place_comp, localiseAxis_comp h, hd]
 
 theorem Solid.localise_id (b : Solid K) : Solid.localise Placement.id b = b := by
   have : Side.localise (Placement.id : Placement K) = id := funext Side.localise_id
